@@ -34,6 +34,26 @@ EXPLANATION = (
 )
 
 
+def _first_diff(a: Any, b: Any, path: str = "") -> str:
+    from mtsa.absint import K as _K, R as _R
+    if isinstance(a, _R) and isinstance(b, _R) and a.kind == b.kind:
+        if a.kind == "dict" and "items" in a.fields and "items" in b.fields:
+            da, db = dict(a.fields["items"]), dict(b.fields["items"])
+            for k in da:
+                if k not in db:
+                    return f"{path}[{k}] missing"
+                if da[k] != db[k]:
+                    return _first_diff(da[k], db[k], f"{path}[{getattr(k, 'v', k)!r}]")
+        for f in a.fields:
+            if f in b.fields and a.fields[f] != b.fields[f]:
+                return _first_diff(a.fields[f], b.fields[f], f"{path}.{f}" if a.kind != "json" else path)
+    if isinstance(a, _K) and isinstance(b, _K) and isinstance(a.v, tuple) and isinstance(b.v, tuple) and len(a.v) == len(b.v):
+        for i, (x, y) in enumerate(zip(a.v, b.v)):
+            if x != y:
+                return _first_diff(x, y, f"{path}[{i}]")
+    return f"{path or 'value'}: {str(a)[:50]} vs {str(b)[:50]}"
+
+
 def rule_type_round_trip(ctx: Ctx, repo: Repo) -> None:
     w = f"{ENC}.type_to_dict/type_from_dict"
     ctx.functions.update({f"{ENC}.type_to_dict", f"{ENC}.type_from_dict", f"{ENC}.typed_dict_to_dict", f"{ENC}.typed_dict_from_dict",
@@ -52,6 +72,12 @@ def rule_type_round_trip(ctx: Ctx, repo: Repo) -> None:
         ok = k2 == "return" and same_type(dec, t)
         ctx.check(ok, "R-C08.1", w, "decoding the encoding of a type gives a structurally identical type",
                   construct=f"{show(t)} -> {show(dec) if k2 == 'return' else 'raises ' + str(dec)}")
+        if ok:
+            # structurally equal types encode equally: the decoded copy is structurally equal to t, so it must encode as t did
+            k3, enc3 = CodecScenario(repo, ENC, "type_to_json").result({repo.fn(ENC, "type_to_json").positional_params()[0]: dec})
+            ctx.check(k3 == "return" and enc3 == enc, "R-C08.6", f"{ENC}.type_to_dict",
+                      "the encoding is a function of the type's structure only: a type and its decoded copy (structurally equal) have the same encoding",
+                      construct=f"{show(t)}: the decoded copy encodes differently ({_first_diff(enc, enc3)})")
         key = repr(enc.fields["of"])
         if key in encodings and encodings[key] != show(t):
             ctx.violate("R-C08.1", w, f"{show(t)} and {encodings[key]} share one encoding", "two different types have the same encoding")
@@ -87,6 +113,43 @@ def rule_structure_only(ctx: Ctx, repo: Repo) -> None:
     ctx.floor("R-C08.6", "ordered pairs of encodings sharing module state", n, 150)
 
 
+def rule_position_independent(ctx: Ctx, repo: Repo) -> None:
+    """R-C08.7: the encoding (decoding) of a type is the same wherever it sits inside a larger type: an optional numeric
+    parameter of the codec functions (a depth, a budget that recursive calls hand down) must not change the result - a
+    component at nesting depth 17 is the same type as at depth 0."""
+    import ast as _ast
+    a1 = CM.anon_td({"a": CM.INT})
+    sel = [CM.INT, CM.NONE_T, CM.USER, CM.NESTED, CM.gen("Tuple"), CM.gen("Type", CM.USER), CM.gen("List", CM.INT), CM.gen("Dict", CM.STR, CM.gen("List", CM.USER)), a1,
+           CM.gen("List", a1), CM.gen("Union", CM.INT, CM.NONE_T)]
+    n = 0
+    for fname, make_arg in (("type_to_dict", lambda t: t), ("typed_dict_to_dict", lambda t: t if isinstance(t, R) and t.kind == "td" else None),
+                            ("type_from_dict", None), ("typed_dict_from_dict", None)):
+        fi = repo.fn(ENC, fname)
+        ps = fi.positional_params()
+        extra = [(p_, d_) for p_, d_ in fi.defaults().items() if p_ != ps[0] and isinstance(d_, _ast.Constant) and isinstance(d_.value, int) and not isinstance(d_.value, bool)]
+        n += 1
+        if not extra:
+            ctx.ok("R-C08.7", fi.fq, "no numeric extra parameter: the function sees nothing but the type")
+            continue
+        for p_, d_ in extra:
+            for t in sel:
+                if make_arg is not None:
+                    arg = make_arg(t)
+                else:
+                    k0, enc0 = CodecScenario(repo, ENC, "type_to_dict").result({repo.fn(ENC, "type_to_dict").positional_params()[0]: t})
+                    arg = enc0 if k0 == "return" and (fname == "type_from_dict" or (isinstance(t, R) and t.kind == "td")) else None
+                if arg is None:
+                    continue
+                want = CodecScenario(repo, ENC, fname).result({ps[0]: arg})
+                for delta in (1, 7, 1000):
+                    got = CodecScenario(repo, ENC, fname).result({ps[0]: arg, p_: K(d_.value + delta)})
+                    n += 1
+                    ctx.check(got == want, "R-C08.7", fi.fq,
+                              "a type is encoded / decoded the same way at every nesting position (no depth or budget parameter changes the result)",
+                              construct=f"{fname}({show(t)}, {p_}={d_.value + delta}) differs from {fname}({show(t)}): a component nested that deep does not survive the round trip")
+    ctx.floor("R-C08.7", "codec functions examined for position dependence", n, 4)
+
+
 def rule_trace_round_trip(ctx: Ctx, repo: Repo) -> None:
     ft = repo.fn(ENC, "CallTraceRow.from_trace")
     tt = repo.fn(ENC, "CallTraceRow.to_trace")
@@ -108,7 +171,11 @@ def rule_trace_round_trip(ctx: Ctx, repo: Repo) -> None:
     funcs.append(cmw)
     pg = CM.func("pkg.mod", "User.size")
     world.add("pkg.mod", "User.size", CM.prop(pg))
-    funcs += [wrapped, cm, pg]
+    # a read-only property (and a cached_property) whose getter is itself a functools.wraps wrapper: the tracer records the
+    # innermost function (it follows __wrapped__), so decoding must follow the chain from the getter too
+    pgw = CM.func("pkg.mod", "User.area")
+    world.add("pkg.mod", "User.area", CM.prop(R("func", __module__=K("pkg.mod"), __qualname__=K("User.area"), __name__=K("area"), __wrapped__=pgw)))
+    funcs += [wrapped, cm, pg, pgw]
     opts = [K(None), CM.NONE_T, CM.gen("List", CM.USER), CM.anon_td({"a": CM.INT})]
     n = 0
     for f in funcs:
@@ -265,6 +332,7 @@ def run(ctx: Ctx, repo: Repo, tier: str) -> None:
               "sqlite: INSERT ... VALUES (?, ...) binds parameters to the table's columns in declaration order; SELECT returns columns in list order")
     rule_type_round_trip(ctx, repo)
     rule_structure_only(ctx, repo)
+    rule_position_independent(ctx, repo)
     rule_trace_round_trip(ctx, repo)
     rule_row_shape(ctx, repo)
     rule_hidden_builtins(ctx, repo)
